@@ -635,6 +635,23 @@ def _frame_violations(n, past, d2, ncol, weights, layout="plain", before=None):
             if not (okpad and okrest):
                 bad.append(("same_rows-not-padded-plain", "same_rows table is not the plain table left-padded with NaN",
                             {"X": sx.tolist(), "y": sy.tolist()}, {"pad_rows": pad, "X": nx.tolist(), "y": ny.tolist()}))
+        # a table already returned keeps its content when another series of the same length is framed afterwards
+        try:
+            keep = [None if a is None else numpy.array(a, copy=True) for a in (sx, sy, sw)]
+            X2 = None if X is None else X + 50000
+            _call_build(past, d1, d2, X2, y + 70000.0, w, True, model=model)
+            _call_build(past, d1, d2, X2, y + 90000.0, w, False, model=model)
+            for nm, a, b in zip(("X", "y", "weights"), (sx, sy, sw), keep):
+                if a is not None and not numpy.array_equal(numpy.asarray(a, dtype=float), numpy.asarray(b, dtype=float),
+                                                           equal_nan=True):
+                    bad.append(("earlier-result-overwritten", "the %s table returned for one series changes when another series "
+                                "of the same length is framed afterwards" % nm, numpy.asarray(a, dtype=float)[-2:].tolist(),
+                                numpy.asarray(b, dtype=float)[-2:].tolist()))
+                    break
+        except Exception:  # noqa: BLE001
+            pass
+        if sx.shape[0] != n or sy.shape[0] != n or (plain is not None and enough):
+            pass
         elif not enough:
             # too short: nothing can be framed, so no row may carry a value
             for r in range(n):
@@ -681,10 +698,41 @@ def _mape_violations(e, p, w):
     return bad
 
 
+def _mape_table_violations(n, past, d2):
+    """the multi-horizon target table build_ts_X_y yields (delay2 >= 3: several consecutive targets per row) scored
+    against the naive forecast 'the previous row': still exactly 1"""
+    import numpy
+    from mlinsights.timeseries.metrics import ts_mape
+    X, y, w = _series(n, None, False, "plain")
+    y = y + numpy.array([(t * t) % 7 for t in range(n)], dtype=float)       # not an arithmetic progression
+    try:
+        _, ny, _ = _call_build(past, 1, d2, None, y, None, False)
+    except Exception:  # noqa: BLE001
+        return []
+    ny = numpy.asarray(ny, dtype=float)
+    if ny.ndim != 2 or ny.shape[1] < 2 or ny.shape[0] < 3:
+        return []
+    pred = numpy.vstack([numpy.full((1, ny.shape[1]), numpy.nan), ny[:-1]])
+    try:
+        r = ts_mape(ny, pred)
+    except Exception as ex:  # noqa: BLE001
+        return [("ts_mape:raises-on-target-table", "ts_mape raises on the target table of build_ts_X_y",
+                 "%s: %s" % (type(ex).__name__, str(ex)[:120]), 1.0)]
+    if r is numpy.ma.masked or not abs(float(r) - 1.0) <= 1e-12:
+        return [("ts_mape:naive-not-one:target-table", "ts_mape of the naive previous-row forecast of a %d-column target "
+                 "table is not 1" % ny.shape[1], None if r is numpy.ma.masked else float(r), 1.0)]
+    return []
+
+
 def search(ctx, hints):
     ctx.shadow(need_cython=False)
     rng = ctx.rng
     vs, evals, nontriv, samples = [], 0, set(), []
+    for n, past, d2 in ((12, 1, 3), (15, 2, 4), (20, 3, 3)):
+        evals += 1
+        nontriv.add(("mape-table", n, past, d2))
+        for key, what, obs, req in _mape_table_violations(n, past, d2):
+            vs.append(Violation(key, what, {"kind": "mape-table", "n": n, "past": past, "delay2": d2}, obs, req))
     nmax, pmax, dmax = ctx.pick((24, 6, 6), (48, 9, 9))
     for n in range(0, nmax + 1):
         for past in range(1, pmax + 1):
@@ -750,7 +798,7 @@ def search(ctx, hints):
 
     def size(v):
         i = v.input
-        return (i["n"], i["past"], i["delay2"]) if i["kind"] == "frame" else (len(i["expected"]), 0, 0)
+        return (i["n"], i["past"], i["delay2"]) if i["kind"] in ("frame", "mape-table") else (len(i["expected"]), 0, 0)
     for v in vs:
         if v.key not in best or size(v) < size(best[v.key]):
             best[v.key] = v
@@ -760,6 +808,8 @@ def search(ctx, hints):
 def replay(ctx, item):
     ctx.shadow(need_cython=False)
     inp = item["input"]
+    if inp.get("kind") == "mape-table":
+        return [Violation(k, w, inp, o, r) for k, w, o, r in _mape_table_violations(inp["n"], inp["past"], inp["delay2"])]
     if inp.get("kind") == "mape":
         bad = _mape_violations(inp["expected"], inp["predicted"], inp["weights"])
         out = [Violation(k, w, inp, o, r) for k, w, o, r in bad]
